@@ -47,7 +47,7 @@ SPEC = {
     "mandatory_probes": {"any": ["failing_statement", "nop_match", "special_literal", "comment_or_empty", "dict_cursor_class", "variable_in_batch", "return_cursors_false", "no_semicolon_batch"]},
 }
 
-SPECIALS = ["semi;colon", "it's", 'dq"dq', "dash--dash", "/* not a comment */", "back\\slash", "new\nline", "tab\tin", "ünï©ode ✓", "", " lead and trail ", "%s %d %%", "a;b;c--d"]
+SPECIALS = ["please GRANT access", "semi;colon", "it's", 'dq"dq', "dash--dash", "/* not a comment */", "back\\slash", "new\nline", "tab\tin", "ünï©ode ✓", "", " lead and trail ", "%s %d %%", "a;b;c--d"]
 HAZARDS = ["dollar"]
 
 
@@ -122,7 +122,7 @@ def gen(rng: Any, prop: str, tier: str) -> dict[str, Any]:
     nop = None
     r = rng.random()
     if r < 0.5:
-        nop = rng.sample([r"^CREATE\s+STAGE", r"^ALTER SESSION", r"^GRANT ", r".*QUERY_TAG", r"^NEVER MATCHES", r"^INSERT INTO T2"], rng.randint(1, 3))
+        nop = rng.sample([r"^CREATE\s+STAGE", r"^ALTER SESSION", r"^GRANT ", r"GRANT ", r".*QUERY_TAG", r"^NEVER MATCHES", r"^INSERT INTO T2"], rng.randint(1, 3))
     has_nopish = any(s["kind"] == "noplike" for s in stmts)
     if has_nopish and nop is None:
         nop = [r"^CREATE\s+STAGE", r"^ALTER SESSION", r"^GRANT "]
